@@ -82,28 +82,33 @@ impl MuxStream {
     #[tracing::instrument(skip_all, level = "trace", fields(flow_id = %format_args!("{:08x}", self.flow_id)))]
     #[inline]
     pub fn poll_for_push(&mut self, cx: &mut Context<'_>) -> Poll<usize> {
-        let Some(next) = ready!(self.rx_frame_rx.poll_recv(cx)) else {
-            trace!("stream has been closed");
-            // See `tokio::sync::mpsc`#clean-shutdown
-            self.rx_frame_rx.close();
-            // There should be no code path sending more frames after an EOF
-            // If this assertion fails, some code path is sending frames after EOF
-            // and thus causing loss of data.
-            // However, this is not an inconsistent state so we should not
-            // panic a production setup.
-            debug_assert!(self.rx_frame_rx.try_recv().is_err());
-            return Poll::Ready(0);
-        };
-        // Putting no data into the buffer is EOF, and other code should
-        // already ensure that such frames are filtered out.
-        debug_assert!(!next.is_empty());
         assert!(
             self.buf.is_empty(),
             "`poll_fill_buf_inner` should not be called unless the buffer is empty"
         );
-        self.buf = next;
-        self.increment_psh_recvd_since();
-        Poll::Ready(self.buf.len())
+        loop {
+            let Some(next) = ready!(self.rx_frame_rx.poll_recv(cx)) else {
+                trace!("stream has been closed");
+                // See `tokio::sync::mpsc`#clean-shutdown
+                self.rx_frame_rx.close();
+                // There should be no code path sending more frames after an EOF
+                // If this assertion fails, some code path is sending frames after EOF
+                // and thus causing loss of data.
+                // However, this is not an inconsistent state so we should not
+                // panic a production setup.
+                debug_assert!(self.rx_frame_rx.try_recv().is_err());
+                return Poll::Ready(0);
+            };
+            // The frame occupied a slot of our window whatever its size
+            self.increment_psh_recvd_since();
+            // Putting no data into the buffer would read as EOF: a `Push` frame with an
+            // empty payload (a zero-length write by the peer) carries nothing, skip it
+            if next.is_empty() {
+                continue;
+            }
+            self.buf = next;
+            return Poll::Ready(self.buf.len());
+        }
     }
 
     /// Get a reference to the internal buffer.
